@@ -47,9 +47,20 @@ func c13Cases(c *Ctx, n int) []*c13case {
 		if kind == GenStruct {
 			recs = pickSpread(recs, min(len(recs), nrec))
 		}
-		out = append(out, &c13case{ID: id, Shape: sh, Recs: recs, Part: RandomPartition(len(recs), rng), Page: []int{1, 2, 3, 7, 50, 1000}[rng.Intn(6)], Codec: []int{0, 0, 0, 1, 1, 1, 1, 1, 2, 0}[rng.Intn(10)], Shared: k%2 == 0})
+		out = append(out, &c13case{ID: id, Shape: sh, Recs: recs, Part: RandomPartition(len(recs), rng), Page: []int{1, 2, 3, 7, 50, 1000}[rng.Intn(6)], Codec: c13Codec(k, rng), Shared: k%2 == 0})
 	}
 	return out
+}
+
+// c13Codec: every tenth history uses gzip (a fixed share, so that the gzip code paths are
+// always represented by several histories; under -race a gzip writer is too slow for more),
+// the others are uncompressed or snappy.
+func c13Codec(k int, rng *rand.Rand) int {
+	r := rng.Intn(9)
+	if k%10 == 9 {
+		return CodecGzip
+	}
+	return []int{0, 0, 0, 1, 1, 1, 1, 1, 0}[r]
 }
 
 // yieldSink perturbs the schedule at sink writes: exactly where a prematurely
@@ -332,9 +343,6 @@ func runC13(c *Ctx) {
 			byCodec[cs.Codec] = append(byCodec[cs.Codec], cs)
 		}
 		for codec, list := range byCodec {
-			if len(list) < 2 {
-				continue
-			}
 			for round := 0; round < 8; round++ {
 				x := list[frng.Intn(len(list))]
 				y := list[frng.Intn(len(list))]
